@@ -25,6 +25,18 @@ CHECK = ScenarioCheck(
     "direct-drive scenarios: 1-3 real queues in a route between probes; bw in {0,1 kB/s..1 GB/s}, latency 0..10 s, capacity 0 / < 1 packet / exact multiples of the packet size (+-1) / large; arrivals single, bursts, overload, on multiples of the serialisation time (coinciding with departures) and of the latency; mixed payload/syn/ack/synack/err; scripted dropper, NAT hop, echo sink replying through the same queue (re-entrancy); non-trivial = >= 4 probe observations; distinct = distinct implementation trace",
     TRUSTED, ASSUME, spec_scn=True)
 
+def _extra_cov(results):
+    tot, scn = {}, {}
+    for i, r in results.items():
+        try: st = spec.check(r["impl"] or [], r["scn"])[2]
+        except Exception: continue
+        for k, v in st.items():
+            tot[k] = tot.get(k, 0) + v
+            if v: scn[k] = scn.get(k, 0) + 1
+    return dict(monitor_counters=tot, monitor_counters_scenarios=scn)
+
+CHECK.extra_cov = _extra_cov
+
 # ---- stage 2: routes of several hops under real UDP / TCP / ACK traffic --------------------
 from specs import delay
 import net_gen, vlib, time
